@@ -189,6 +189,34 @@ theorem empty_presentation_holder_is_not_checked :
       verifyVP cfg P E true false (some 2000) vp = .ok () ∧ presentationSigner E vp = some s ∧ vp.holder ≠ some s ∧ vp.holder ≠ none :=
   ⟨exCfg, exP, exE, exEmptyVP, "did:x:i", by decide, by decide, by decide, by decide⟩
 
+/-! ## 2c. "has a trusted issuer when trust is required": untrusting is effective for EVERY content of the trust file -/
+
+/-- Whatever list the trust file held for the type — duplicates of the issuer, other issuers in between, any order, the same
+    issuer under other types — after `RemoveTrust(t, i)` the issuer is not trusted for `t` any more (also after a restart,
+    which re-loads exactly the stored lists), no other type is touched, and other issuers of `t` keep their trust.
+    (`i ≠ ""`: the slice RemoveTrust allocates keeps Go's zero value "" in its tail when it dropped duplicates.) -/
+theorem untrust_is_effective (s : TrustStore) (t i : String) (hi : i ≠ "") :
+    isTrusted (removeTrust s t i) t i = false ∧
+    (∀ t' i', t' ≠ t → isTrusted (removeTrust s t i) t' i' = isTrusted s t' i') ∧
+    (∀ i', i' ≠ i → i' ≠ "" → isTrusted (removeTrust s t i) t i' = isTrusted s t i') ∧
+    isTrusted (addTrust s t i) t i = true :=
+  ⟨untrust_effective s t i hi, fun t' i' h => untrust_other_type s t i t' i' h,
+   fun i' h h' => untrust_other_issuer s t i i' h h', trust_after_add s t i⟩
+
+/-- ... and so a credential of that type and issuer is no longer reported valid where trust is required -/
+theorem untrusted_issuer_is_rejected (cfg : Cfg) (P : Crypto) (E : Env) (cs : Bool) (at_ : Option Time) (c : Cred)
+    (s : TrustStore) (t : String) (hi : c.issuer ≠ "") (ht : t ∈ c.types) (hvc : t ≠ vcType) :
+    verify cfg P { E with trusted := isTrusted (removeTrust s t c.issuer) } false cs at_ c ≠ .ok () := by
+  intro h
+  obtain ⟨_, _, _, _, htr, _⟩ := verify_ok_iff.mp h
+  cases htr with
+  | inl h => cases h
+  | inr h =>
+    have := h t ht hvc
+    simp only at this
+    rw [untrust_effective s t c.issuer hi] at this
+    cases this
+
 /-! ## 3. tamper evidence (CONDITIONAL: unforgeability, SHA-256, and the canonicalisation contract are hypotheses) -/
 
 /-- Linked-data credential.  Let `c` be a document with proof options `p`, and let `c'` be any document presented to the
@@ -473,6 +501,10 @@ def exE2 : Env := { exE with
 example : verifyVP exCfg exP exE2 true false (some 2000) { exVP with vcs := [exSelf, exC] } = .ok () := by decide
 example : verifyVP exCfg exP exE2 true false (some 2000) { exVP with vcs := [exSelf, exForged] } = .err "vc:vm-not-of-issuer" := by decide
 example : verifyVP exCfg exP exE2 true false (some 2000) { exVP with vcs := [exForged, exSelf] } = .err "vc:vm-not-of-issuer" := by decide
+-- untrust_is_effective: a hand-edited file with duplicates (and another issuer in between)
+example : isTrusted (removeTrust [("T", ["did:x:i", "did:x:o", "did:x:i"])] "T" "did:x:i") "T" "did:x:i" = false ∧
+    isTrusted (removeTrust [("T", ["did:x:i", "did:x:o", "did:x:i"])] "T" "did:x:i") "T" "did:x:o" = true ∧
+    removeTrust [("T", ["did:x:i", "did:x:o", "did:x:i"])] "T" "did:x:i" = [("T", ["did:x:o", ""])] := by decide
 -- tamper_evident: its hypotheses are satisfiable together.  Crypto in which exactly ONE (key, message, signature) triple
 -- verifies (so unforgeability holds with `Signed k m := m = exM0`); c' = the signed credential with another issuance date.
 example : ∃ (Signed : Key → Bytes → Prop) (c' : Cred),
@@ -625,6 +657,18 @@ theorem fact_model_checks_are_the_source_checks (cfg : Cfg) (P : Crypto) (E : En
 
 /-- doVerifyVP declares `checkSignature := true` inside the loop over the credentials (the model's `vcCheckSig vp c` is per credential) -/
 theorem fact_check_signature_flag_is_per_credential : Nuts.Facts.C01.checkSignatureFlagIsPerCredential = true := by decide
+def removeTrustReturnsSrc : List String :=
+  [ " => tc.save()" ]
+def addTrustReturnsSrc : List String :=
+  [ " => tc.save()" ]
+def isTrustedReturnsSrc : List String :=
+  [ "range tc.issuersPerType[credentialType.String()] && i == issuerString => true",
+    " => false" ]
+/-- trust.go as modelled: IsTrusted is a scan of the type's list; AddTrust appends unless trusted; RemoveTrust returns early unless
+    trusted and otherwise keeps every entry that differs from the issuer (all occurrences are dropped) -/
+theorem fact_trust_store_code : Nuts.Facts.C01.removeTrustReturns = removeTrustReturnsSrc ∧ Nuts.Facts.C01.addTrustReturns = addTrustReturnsSrc ∧
+    Nuts.Facts.C01.isTrustedReturns = isTrustedReturnsSrc ∧ Nuts.Facts.C01.removeTrustDropsEveryOccurrence = true := by
+  refine ⟨by rfl, by rfl, by rfl, by decide⟩
 theorem fact_max_skew : Nuts.Facts.C01.maxSkewMs = 5000 := by decide
 theorem fact_supported_algs : Nuts.Facts.C01.supportedAlgs = ["ES256", "EdDSA", "ES384", "ES512", "PS256", "PS384", "PS512"] := by decide
 theorem fact_signing_key_relation : Nuts.Facts.C01.signingKeyRelation = "AssertionMethod" := by decide
